@@ -70,6 +70,9 @@ func (m *OddPrimeSquare) MultiplicativeOrder() algebra.Cardinal {
 // instance from the given odd prime factors p and q.
 // Returns ct.False if the inputs are invalid (not distinct).
 func NewOddPrimeSquareFactors(firstPrime, secondPrime *numct.Nat) (m *OddPrimeSquareFactors, ok ct.Bool) {
+	if firstPrime == nil || secondPrime == nil {
+		return nil, ct.False
+	}
 	allOk := firstPrime.Equal(secondPrime).Not()
 
 	// Clone the inputs to avoid any possibility of mutation
@@ -80,6 +83,10 @@ func NewOddPrimeSquareFactors(firstPrime, secondPrime *numct.Nat) (m *OddPrimeSq
 	allOk &= ok
 	q, ok := NewOddPrimeSquare(secondPrimeClone)
 	allOk &= ok
+	if allOk == ct.False {
+		// The precomputation below is undefined for such inputs (it panics for zero and one).
+		return nil, ct.False
+	}
 
 	crtModN, ok := crt.NewParamsExtended(p.Factor, q.Factor)
 	allOk &= ok
